@@ -477,7 +477,21 @@ def eval_expmv(ctx, case, corr=None):
         # direction and norm are judged separately
         nw = float(np.linalg.norm(w))
         if not abs(nw - 1) <= max(100 * tol, 1e-9):
-            ctx.fail("oracle", "c18:expmv:normalize-not-unit" + (":lanczos" if herm else ""),
+            sub = ":lanczos" if herm else ""
+            if not herm and abs(nw - 1) <= 1e-2:
+                # Arnoldi: a restart vector of norm 1+d is not re-normalised and Gram-Schmidt assumes unit vectors; when |w| << |h| (start
+                # vector close to an invariant subspace) d is AMPLIFIED from restart to restart (observed factor -3): a slow drift that
+                # needs many accepted steps to become visible - told apart from a gross normalisation error by the number of steps
+                steps = (info or {}).get("steps")
+                if steps is None:
+                    try:
+                        with core.time_limit(20 if ctx.quick else 60):
+                            steps = yastn.expmv(P.f, v, t, tol, ncv, hermitian=herm, normalize=normalize, return_info=True)[1].get("steps")
+                    except BaseException:  # noqa: BLE001
+                        steps = None
+                if steps is not None and steps >= 15:
+                    sub = ":arnoldi-restart-drift"
+            ctx.fail("oracle", "c18:expmv:normalize-not-unit" + sub,
                      f"normalize=True but the result has norm {nw!r} (dim={P.dim} t={t} tol={tol} ncv={ncv} hermitian={herm})", case=case, concrete=True)
         ref = ref / nref
         nref = 1.0
@@ -1034,7 +1048,7 @@ def run(ctx):
     ctx.extra["yastn_path"] = yastn.__file__
     ctx.notes.append("defects of the pinned yastn found by this check and recorded in known_findings.json: expmv livelock for ncv > min(30, size) "
                      "(c18:expmv:livelock-ncv-above-ncvmax; for a start tensor storing fewer elements than the sector has dimensions: c18:expmv:livelock-ncvmax-stored-size), ZeroDivisionError/OverflowError when tau_opt underflows (c18:expmv:tau-opt-underflow), "
-                     "non-unit result of expmv(hermitian=True, normalize=True) for large real t (c18:expmv:normalize-not-unit:lanczos), garbage Ritz pairs "
+                     "non-unit result of expmv(hermitian=True, normalize=True) for large real t (c18:expmv:normalize-not-unit:lanczos) and a drifting norm under Arnoldi over many restarts from a nearly invariant start vector (c18:expmv:normalize-not-unit:arnoldi-restart-drift), garbage Ritz pairs "
                      "of eigs with ncv > dimension after an undetected breakdown (c18:eigs:krylov-beyond-dimension)")
     t0 = time.time()
     if ctx.quick:
